@@ -246,8 +246,14 @@ def with_items_by_line(fnode, is_module):
     return out, kinds
 
 
+def corpus_files():
+    d = os.path.join(os.path.dirname(os.path.abspath(__file__)), "static_corpus")
+    return sorted(os.path.join(d, f) for f in os.listdir(d) if f.endswith(".py"))
+
+
 def run_meta(req):
-    files = stdlib_files()[req["index"]::req["nshards"]]
+    # (the hand-written corpus goes with every shard)
+    files = corpus_files() + stdlib_files()[req["index"]::req["nshards"]]
     stats = {"files": 0, "functions_with_blocks": 0, "contexts": 0, "targets_non_name": 0, "multi_item_lines": 0}
     obs = []
     for path in files:
